@@ -13,7 +13,7 @@ ASSUMPTIONS = sched.ASSUMPTIONS + ['empty initial environment',
                                    'malformed returns are judged by C02']
 OUTSIDE = sched.OUTSIDE
 BOUNDS = {'quick': {'tasks': 2, 'graphs': 'all 3 labelled graphs on 2 tasks (none/hard/soft)', 'workers': [1, 2],
-                    'plus': '3-task chain and hard+soft fan-in with 1 worker', 'outcomes': KINDS,
+                    'plus': '3-task chain and hard+soft fan-in with 1 worker; two publishers under a shared environment key (W=2)', 'outcomes': KINDS,
                     'depth': 'every run, first K = 22+11N+6W steps (completeness of K is established in the thorough tier for W=1)'},
           'thorough': {'tasks': '<= 3', 'graphs': 'all 27 labelled hard/soft/none graphs on 3 tasks (W=1), 2-task graphs W<=2; '
                        'two publishers under a shared environment key (W=2)', 'outcomes': KINDS, 'depth': 'W=1: K = 22+11N+6W established by the unwinding query (every run is complete within K); W=2: first K steps of every run (unwinding query out of reach)'}}
@@ -90,9 +90,8 @@ def jobs(tier):
     # updates that also write under ONE environment key shared by all tasks (atomicity of Env.apply):
     # two publishers and a reader, two workers
     # (two independent publishers, two workers; the 3-task version with a reader needs > 15 min per query)
-    if tier == 'thorough':
-        c = Config(2, [], [], 2, shared=True)
-        out.append((cfg_name(c) + '-shared', _job, dict(n=2, hard=[], soft=[], w=2, tier=tier, shared=True)))
+    c = Config(2, [], [], 2, shared=True)
+    out.append((cfg_name(c) + '-shared', _job, dict(n=2, hard=[], soft=[], w=2, tier=tier, shared=True)))
     return out
 
 
